@@ -20,7 +20,7 @@ RULE = ("cases: random recipes (all connectives, DAG sharing, integer leaves inc
         "non-trivial: depth>=2 and (a negatively signed node or an integer leaf); distinct by canonical shape digest")
 BUDGET = {"quick": (8, 160, 60), "thorough": (16, 2500, 900)}
 MANDATORY = ["judged:node-value", "judged:top-present", "judged:evaluate==top-entry", "judged:variable.evaluate",
-             "contract:AtLeast.evaluate_propositions", "contract:AtLeast.evaluate", "count:override-cases"]
+             "contract:AtLeast.evaluate_propositions", "contract:AtLeast.evaluate", "count:override-cases", "count:out-of-bounds-values", "count:same-object-same-dict-calls"]
 
 
 def split_interpretation(graph, interp):
@@ -182,7 +182,30 @@ def _run_one(case, ctx):
     ids, bounds = common.leaf_box(graph, top)
     comp = [c for c in refmodel.compounds(graph, top)]
     cap = common.point_cap(ctx.tier, 10, 40)
+    # one model object and one interpretation dict object, updated in place between calls (leaf values only, so the known
+    # rebinding of named sub-propositions is not involved): every call must reflect the dict as it is *now*
+    if rng.random() < 0.3 and ids:
+        same = recipes.fresh(case["recipe"])
+        d = None
+        for x, _ex in refmodel.assignments(ids, bounds, rng, 4):
+            if d is None:
+                d = common.interp(rng, x)
+            else:
+                for k_, v_ in x.items():
+                    d[k_] = common.value_form(rng, v_)
+            ctx.count("count:same-object-same-dict-calls")
+            if rng.random() < 0.5:
+                ctx.call("evaluate_propositions", same.evaluate_propositions, d)
+            else:
+                ctx.call("evaluate", same.evaluate, d)
     for x, _ex in refmodel.assignments(ids, bounds, rng, cap):
+        if rng.random() < 0.12 and ids:
+            # the interpretation wins over the declared bounds (documented by variable.evaluate): values outside them
+            lid = rng.choice(ids)
+            lo, hi = graph[lid]["b"]
+            x = dict(x)
+            x[lid] = rng.choice([lo - rng.randint(1, 3), hi + rng.randint(1, 3)])
+            ctx.count("count:out-of-bounds-values")
         interp = common.interp(rng, x)
         if rng.random() < 0.35 and comp:
             for c in rng.sample(comp, rng.randint(1, min(2, len(comp)))):
